@@ -28,3 +28,16 @@ func init() {
 			Old: "return NewRouter(backend, healthController, globalMetricsRegistry, a, cfg.ReadOnly)", New: "return NewRouter(backend, healthController, globalMetricsRegistry, a, false)", Expect: "R19b:NewRouter-call"},
 	)
 }
+
+func init() {
+	const router = "internal/api/router.go"
+	ct := "\t\t\tw.Header().Set(\"Content-Type\", \"application/json\")\n"
+	addMutants(
+		Mutant{Property: "C19", Name: "method-override-header-rewrites-request-method", File: router, Old: ct,
+			New: ct + "\t\t\tif o := r.Header.Get(\"X-HTTP-Method-Override\"); o != \"\" {\n\t\t\t\tr.Method = o\n\t\t\t}\n", Expect: "R19d:"},
+		Mutant{Property: "C19", Name: "method-override-via-routing-context", File: router, Old: ct,
+			New: ct + "\t\t\tif o := r.Header.Get(\"X-HTTP-Method-Override\"); o != \"\" {\n\t\t\t\tif rctx := chi.RouteContext(r.Context()); rctx != nil {\n\t\t\t\t\trctx.RouteMethod = o\n\t\t\t\t}\n\t\t\t}\n", Expect: "R19d:"},
+		Mutant{Property: "C19", Name: "head-served-by-get-handlers", File: router, Old: ct,
+			New: ct + "\t\t\tif r.Method == http.MethodHead {\n\t\t\t\tif rctx := chi.RouteContext(r.Context()); rctx != nil {\n\t\t\t\t\trctx.RouteMethod = \"GET\"\n\t\t\t\t}\n\t\t\t}\n", Expect: "none", Benign: true},
+	)
+}
